@@ -307,6 +307,12 @@ func classC01(c Case, p *prepared, f Failure) string {
 		return "minify_pipe_before_ampersand_redirect"
 	case hasCoprocNameCall(p.f):
 		return "coproc_name_with_simple_command"
+	case c.In.Lang == syntax.LangZsh && c.Simplify && strings.Contains(f.Detail, "Modifiers=") && treeHas(p.f, func(x any) bool {
+		pe, ok := x.(*syntax.ParamExp)
+		return ok && pe.Slice != nil
+	}):
+		// Simplify drops the `$` of `${x:$h}`; in zsh `${x:h}` is then read as a history-style modifier
+		return "zsh_simplify_slice_dollar_becomes_modifier"
 	}
 	return ""
 }
@@ -456,6 +462,18 @@ func hasDblQuotedEscapedNewline(n any) bool {
 	})
 }
 
+// the source as parsed, before Simplify, has a `!` inside [[ ]]
+func srcHasTestNegation(c Case) bool {
+	f, err := Parse(c.In.Src, c.In.Lang, true)
+	if err != nil {
+		return false
+	}
+	return treeHas(f, func(x any) bool {
+		u, ok := x.(*syntax.UnaryTest)
+		return ok && u.Op == syntax.TsNot
+	})
+}
+
 // classC02: sameTree = the second output parses to the same tree and comment sequence as the
 // first (the two outputs differ in layout only).
 func classC02(c Case, p *prepared, out1, out2 string, sameTree bool) string {
@@ -467,6 +485,10 @@ func classC02(c Case, p *prepared, out1, out2 string, sameTree bool) string {
 		return "coproc_trailing_comment"
 	case hasCoprocNameCall(p.f):
 		return "coproc_name_with_simple_command"
+	case c.Simplify && srcHasTestNegation(c):
+		// Simplify rewrites `[[ ! a = b ]]` to `! a == b` and only a second run turns that into
+		// `a != b` (likewise `! ! ! -n x`, `! ! (a == b)`): syntax.Simplify is not a fixed point
+		return "simplify_test_negation_needs_two_passes"
 	case c.Simplify && c.Opt.Single && hasDblQuotedEscapedNewline(p.f):
 		// SingleLine drops the escaped newline inside double quotes; only then can Simplify
 		// turn the string into single quotes, on the second pass
